@@ -17,7 +17,10 @@ pub const LEXEMES: [&str; 56] = [
 /// sub-alphabet for the longer sequences: one representative per syntactic role
 pub const CORE: [&str; 16] = ["a", "1", "(", ")", "[", "]", "{", "}", ".", ",", "-", "!", "?", ":", "+", "&&"];
 pub const CORE12: [&str; 12] = ["a", "1", "(", ")", "[", "]", ".", ",", "-", "?", ":", "+"];
-pub const CHARS: [char; 13] = ['a', '1', '.', '\'', '"', '\\', '(', ')', '+', '-', ' ', '\n', '\u{e4}'];
+pub const CHARS: [char; 14] = ['a', '1', '.', '\'', '"', '\\', '(', ')', '+', '-', ' ', '\n', '\u{e4}', '\t'];
+/// layout-sensitive characters: tab, carriage return, characters of 2, 3 and 4 UTF-8 bytes, an
+/// unknown ASCII character (error positions and rendered snippets mix columns, bytes and tabs)
+pub const LAYOUT_CHARS: [char; 9] = ['\t', '\u{e4}', '\u{20ac}', '\u{1f600}', '#', 'a', '\n', '"', '\r'];
 
 pub struct Judged {
     pub class: &'static str,
@@ -197,6 +200,26 @@ pub fn run(run: &mut Run) {
                 c /= n;
             }
             judge(run, "chars", &s);
+        }
+    }
+
+    // (b2) every string of length <= 5 (6) over the layout-sensitive characters
+    run.sub("layout-chars");
+    {
+        let n = LAYOUT_CHARS.len() as u64;
+        for len in 1..=max_chars {
+            for code in 0..n.pow(len as u32) {
+                if !run.take() {
+                    continue;
+                }
+                let mut c = code;
+                let mut s = String::new();
+                for _ in 0..len {
+                    s.push(LAYOUT_CHARS[(c % n) as usize]);
+                    c /= n;
+                }
+                judge(run, "layout-chars", &s);
+            }
         }
     }
 
